@@ -33,7 +33,10 @@ Default == 60                                      \* the value of the point-les
 
 (* a configuration: polygon, which corners are listed, how many interior points, affine or bumped values,
    whether the corners come before or after the interior points *)
-Configs == [poly : 1..3, listed : SUBSET (1..4), nint : 0..2, affine : BOOLEAN, cornersfirst : BOOLEAN]
+AreaTypes == {"continental plate", "oceanic plate", "mantle layer"}
+(* which: the surface is the feature's max depth (min depth constant), its min depth (max depth constant), or both
+   (the max depth surface is the min depth surface shifted down by 150 km) *)
+Configs == [poly : 1..3, listed : SUBSET (1..4), nint : 0..2, affine : BOOLEAN, cornersfirst : BOOLEAN, type : AreaTypes, which : {"max", "min", "both"}]
 Valid(c) == c.affine => c.listed = 1..4            \* affine data need every corner listed (a fifth corner of the pentagon too)
 
 Val(c, p, k) == IF c.affine THEN Affine(p) ELSE Affine(p) + 7 * k      \* the k-th listed point, bumped off the plane
@@ -86,18 +89,25 @@ MechRefinesProp(c) ==
 U == 100 * Km
 HM == 2000 * Km
 PtM(p) == <<p[1] * U, p[2] * U>>
-RenderEntry(e) == IF Len(e) = 1 THEN <<e[1] * Km>> ELSE <<e[1] * Km, [j \in 1..Len(e[2]) |-> PtM(e[2][j])]>>
+RenderEntry(e, shift) == IF Len(e) = 1 THEN <<(e[1] + shift) * Km>> ELSE <<(e[1] + shift) * Km, [j \in 1..Len(e[2]) |-> PtM(e[2][j])]>>
+SurfaceOf(c, shift) == [k \in 1..Len(Entries(c)) |-> RenderEntry(Entries(c)[k], shift)]
 Doc(c) == World(Cartesian,
-                <<Area("continental plate", "p", [i \in 1..Len(Polygons[c.poly]) |-> PtM(Polygons[c.poly][i])], 0,
-                       [k \in 1..Len(Entries(c)) |-> RenderEntry(Entries(c)[k])],
+                <<Area(c.type, "p", [i \in 1..Len(Polygons[c.poly]) |-> PtM(Polygons[c.poly][i])],
+                       IF c.which = "max" THEN 0 ELSE SurfaceOf(c, 0),
+                       CASE c.which = "max" -> SurfaceOf(c, 0) [] c.which = "min" -> 400 * Km [] c.which = "both" -> SurfaceOf(c, 150),
                        <<>>, <<CUniform(<<1>>, "replace")>>, <<>>, <<>>)>>)
 
 MinNodal(c) == LET N == Nodal(c) IN CHOOSE m \in {N[p] : p \in DOMAIN N} : \A p \in DOMAIN N : m <= N[p]
 MaxNodal(c) == LET N == Nodal(c) IN CHOOSE m \in {N[p] : p \in DOMAIN N} : \A p \in DOMAIN N : m >= N[p]
 
 (* rows <<x, y, z, depth, expected composition>>: 1 m above the predicted depth the composition is on, 1 m below off *)
-Switch(p2, dkm) == << <<p2[1] * 50 * Km, p2[2] * 50 * Km, HM - (dkm * Km - 1), dkm * Km - 1, 1>>,
-                      <<p2[1] * 50 * Km, p2[2] * 50 * Km, HM - (dkm * Km + 1), dkm * Km + 1, 0>> >>
+SwitchAt(p2, d, shallow, deep) == << <<p2[1] * 50 * Km, p2[2] * 50 * Km, HM - (d - 1), d - 1, shallow>>,
+                                      <<p2[1] * 50 * Km, p2[2] * 50 * Km, HM - (d + 1), d + 1, deep>> >>
+(* d2: twice the predicted depth in metres (half-lattice values of the affine function are half-integers in km) *)
+SwitchC(c, p2, d) == CASE c.which = "max" -> SwitchAt(p2, d, 1, 0)
+                       [] c.which = "min" -> SwitchAt(p2, d, 0, 1)
+                       [] c.which = "both" -> SwitchAt(p2, d, 0, 1) \o SwitchAt(p2, d + 150 * Km, 1, 0)
+Switch(c, p2, dkm) == SwitchC(c, p2, dkm * Km)
 (* interior probes on the half lattice (coordinates doubled), strictly inside the rectangles *)
 HalfProbes(c) == CASE c.poly = 1 -> {<<x, y>> : x \in 1..7, y \in 1..5}
                    [] c.poly = 2 -> {<<x, y>> : x \in 3..9, y \in 3..7}
@@ -105,21 +115,24 @@ HalfProbes(c) == CASE c.poly = 1 -> {<<x, y>> : x \in 1..7, y \in 1..5}
 Rows(c) ==
   LET N == Nodal(c)
       nodal == FlattenSeq([k \in 1..Cardinality(DOMAIN N) |->
-                  LET p == SetToSeq(DOMAIN N)[k] IN Switch(<<2 * p[1], 2 * p[2]>>, N[p])])
+                  LET p == SetToSeq(DOMAIN N)[k] IN Switch(c, <<2 * p[1], 2 * p[2]>>, N[p])])
       hp == SetToSeq(HalfProbes(c))
       inside == IF c.affine
                 THEN FlattenSeq([k \in 1..Len(hp) |->
                         \* f at a half-lattice point: 100 + 5 x + 2.5 y km = (200 + 10 x + 5 y) / 2
-                        << <<hp[k][1] * 50 * Km, hp[k][2] * 50 * Km, HM - ((200 + 10 * hp[k][1] + 5 * hp[k][2]) * 500 - 1), (200 + 10 * hp[k][1] + 5 * hp[k][2]) * 500 - 1, 1>>,
-                           <<hp[k][1] * 50 * Km, hp[k][2] * 50 * Km, HM - ((200 + 10 * hp[k][1] + 5 * hp[k][2]) * 500 + 1), (200 + 10 * hp[k][1] + 5 * hp[k][2]) * 500 + 1, 0>> >>])
+                        SwitchC(c, hp[k], (200 + 10 * hp[k][1] + 5 * hp[k][2]) * 500)])
                 ELSE FlattenSeq([k \in 1..Len(hp) |->
-                        << <<hp[k][1] * 50 * Km, hp[k][2] * 50 * Km, HM - (MinNodal(c) * Km - 1), MinNodal(c) * Km - 1, 1>>,
-                           <<hp[k][1] * 50 * Km, hp[k][2] * 50 * Km, HM - (MaxNodal(c) * Km + 1), MaxNodal(c) * Km + 1, 0>> >>])
+                        \* the local depth lies between the smallest and the largest nodal value
+                        LET lo == MinNodal(c) * Km - 1  hi == MaxNodal(c) * Km + 1
+                            row(d, v) == <<hp[k][1] * 50 * Km, hp[k][2] * 50 * Km, HM - d, d, v>>
+                        IN CASE c.which = "max" -> <<row(lo, 1), row(hi, 0)>>
+                             [] c.which = "min" -> <<row(lo, 0), row(hi, 1)>>
+                             [] c.which = "both" -> <<row(lo, 0), row(hi, 1), row(lo + 150 * Km, 1), row(hi + 150 * Km, 0)>>])
   IN nodal \o inside
 
 Behaviour(c) ==
   [id |-> <<"surface", c>>,
-   labels |-> <<"surface", IF c.affine THEN "affine" ELSE "bumped", "poly" \o ToString(c.poly)>>
+   labels |-> <<"surface", IF c.affine THEN "affine" ELSE "bumped", "poly" \o ToString(c.poly), c.type, "surface-of-" \o c.which>>
               \o (IF \E e \in {Entries(c)[k] : k \in 1..Len(Entries(c))} : Len(e) = 2 /\ e[2][1] \in Corners(c) /\ (e[2][1][1] = 0 \/ e[2][1][2] = 0)
                   THEN <<"listed-corner-with-zero-coordinate">> ELSE <<>>),
    steps |-> << [op |-> "create", h |-> 1, wb |-> Doc(c)],
